@@ -139,9 +139,11 @@ Section CacheSim.
   Notation evalC := (eval store mem_find mem_store cfg u fuel site_ok).
   Notation validateC := (validate store mem_find mem_store cfg u fuel site_ok).
   Notation keysC := (keys store mem_find mem_store cfg u fuel site_ok).
+  Notation explainC := (explain store mem_find mem_store cfg u fuel site_ok).
   Notation evalN := (eval unit nc_find nc_store cfg_nc u fuel (fun _ _ => true)).
   Notation validateN := (validate unit nc_find nc_store cfg_nc u fuel (fun _ _ => true)).
   Notation keysN := (keys unit nc_find nc_store cfg_nc u fuel (fun _ _ => true)).
+  Notation explainN := (explain unit nc_find nc_store cfg_nc u fuel (fun _ _ => true)).
   Notation MC := (M store).
   Notation MN := (M unit).
 
@@ -473,7 +475,8 @@ Section CacheSim.
     forall o, D o ->
       Sim (evalC e o) (evalN e o) /\
       Sim (validateC e o) (validateN e o) /\
-      Sim (keysC e o) (keysN e o).
+      Sim (keysC e o) (keysN e o) /\
+      Sim (explainC e o) (explainN e o).
   Definition SimOpt (x : option expr) (D : dict -> Prop) : Prop := match x with Some e => SimAll e D | None => True end.
 
   Ltac unfC L := rewrite !(L store mem_find mem_store cfg u fuel site_ok).
@@ -732,7 +735,7 @@ Section CacheSim.
   Proof.
     induction e using expr_ind'; intros D Hc; cbn [scoh] in Hc; try contradiction; intros o Ho.
     - (* EValue *)
-      split; [|split]; [unf eval_EValue|unf validate_EValue|unf keys_EValue]; leaf.
+      split; [|split; [|split]]; [unf eval_EValue|unf validate_EValue|unf keys_EValue|unf explain_EValue]; leaf.
     - (* EOption *)
       destruct Hc as [Cd Cm].
       assert (HD : SimOpt dflt D) by (destruct dflt; [apply H; assumption|exact I]).
@@ -740,7 +743,7 @@ Section CacheSim.
       assert (Hev : Sim (option_eval store u fuel (fun x => evalC x o) k dflt dom o)
                         (option_eval unit u fuel (fun x => evalN x o) k dflt dom o)).
       { apply Sim_option_eval; [intros d ->; apply (HD o Ho)|intros d ->; apply (HM o Ho)]. }
-      split; [|split].
+      split; [|split; [|split]].
       + unf eval_EOption. apply Sim_wrap. exact Hev.
       + unf validate_EOption. apply Sim_bind; [apply Sim_pure, Pure_rd|]. intros r.
         destruct r as [raw| |]; [|destruct dflt as [d|]; [apply (HD o Ho)|leaf]|leaf].
@@ -751,24 +754,32 @@ Section CacheSim.
         destruct (existsb _ s); [leaf|].
         apply Sim_bind; [|intros; leaf].
         apply Sim_pure, Pure_unionM. intros; apply Pure_ref_keys.
+      + unf explain_EOption. apply Sim_bind; [apply Sim_pure, Pure_rd|]. intros r.
+        destruct r as [v| |]; [|destruct dflt as [d|]; [apply (HD o Ho)|leaf]|leaf].
+        destruct v; try leaf.
+        destruct (existsb _ s); [leaf|].
+        apply Sim_bind; [|intros; leaf].
+        apply Sim_pure, Pure_unionM. intros; apply Pure_ref_keys.
     - (* EApply *)
       destruct Hc as [Ca Cb].
-      destruct (IHe1 D Ca o Ho) as (E1 & V1 & K1).
-      destruct (IHe2 D Cb o Ho) as (E2 & V2 & K2).
-      split; [|split].
+      destruct (IHe1 D Ca o Ho) as (E1 & V1 & K1 & X1).
+      destruct (IHe2 D Cb o Ho) as (E2 & V2 & K2 & X2).
+      split; [|split; [|split]].
       + unf eval_EApply. apply Sim_wrap. apply Sim_bind; [exact E1|]. intros x.
         apply Sim_bind; [exact E2|]. intros f. apply Sim_pure, Pure_call_value.
       + unf validate_EApply. apply Sim_bind; [exact V1|]. intros; exact V2.
       + unf keys_EApply. apply Sim_bind; [exact K1|]. intros a.
         apply Sim_bind; [exact K2|]. intros; leaf.
+      + unf explain_EApply. apply Sim_bind; [exact X1|]. intros a.
+        apply Sim_bind; [exact X2|]. intros; leaf.
     - (* EBind *)
       destruct Hc as (Cs & Ct & Cd).
-      destruct (IHe D Cs o Ho) as (E1 & V1 & K1).
+      destruct (IHe D Cs o Ho) as (E1 & V1 & K1 & X1).
       assert (HT0 : forall b, In b (map snd tbl) -> SimAll b D).
       { intros b Hb. apply (Forall_tbl_In (fun x => forall D, scoh x D -> SimAll x D) _ H b Hb).
         apply (coh_tbl_In _ D Ct b Hb). }
       assert (HD : SimOpt dflt D) by (destruct dflt; [apply H0; assumption|exact I]).
-      split; [|split].
+      split; [|split; [|split]].
       + unf eval_EBind. apply Sim_wrap. apply Sim_bind; [exact E1|]. intros x.
         apply Sim_pick.
         * intros b Hb. apply (HT0 b Hb o Ho).
@@ -782,9 +793,15 @@ Section CacheSim.
         apply Sim_bind; [|intros; leaf]. apply Sim_pick.
         * intros b Hb. apply (HT0 b Hb o Ho).
         * destruct dflt as [d|]; [apply (HD o Ho)|leaf].
+      + unf explain_EBind. apply Sim_catch; [|intros c ee; leaf].
+        apply Sim_bind; [exact X1|]. intros a.
+        apply Sim_bind; [exact E1|]. intros x.
+        apply Sim_bind; [|intros; leaf]. apply Sim_pick.
+        * intros b Hb. apply (HT0 b Hb o Ho).
+        * destruct dflt as [d|]; [apply (HD o Ho)|leaf].
     - (* ESwitch *)
       destruct Hc as (Cs & Ct & Cd).
-      destruct (IHe D Cs o Ho) as (E1 & V1 & K1).
+      destruct (IHe D Cs o Ho) as (E1 & V1 & K1 & X1).
       assert (HT0 : forall b, In b (map snd tbl) -> SimAll b D).
       { intros b Hb. apply (Forall_tbl_In (fun x => forall D, scoh x D -> SimAll x D) _ H b Hb).
         apply (coh_tbl_In _ D Ct b Hb). }
@@ -794,7 +811,7 @@ Section CacheSim.
       { unfold dispatch_value. apply Sim_catch.
         - apply Sim_bind; [exact E1|intros; leaf].
         - intros c ee. leaf. }
-      split; [|split].
+      split; [|split; [|split]].
       + unf eval_ESwitch. apply Sim_wrap. apply Sim_bind; [exact Hdisp|]. intros dv.
         destruct dv as [k|].
         * destruct (negb (hashable k)); [leaf|]. apply Sim_pick.
@@ -816,11 +833,21 @@ Section CacheSim.
              ++ destruct dflt as [d|]; [apply (HD o Ho)|leaf].
           -- intros a. apply Sim_bind; [exact K1|intros; leaf].
         * destruct dflt as [d|]; [apply (HD o Ho)|leaf].
+      + unf explain_ESwitch. apply Sim_bind.
+        { apply Sim_catch; [exact Hdisp|intros c ee; leaf]. }
+        intros dv. destruct dv as [k|].
+        * destruct (negb (hashable k)); [leaf|].
+          apply Sim_bind.
+          -- apply Sim_pick.
+             ++ intros b Hb. apply (HT0 b Hb o Ho).
+             ++ destruct dflt as [d|]; [apply (HD o Ho)|leaf].
+          -- intros a. apply Sim_bind; [exact X1|intros; leaf].
+        * destruct dflt as [d|]; [apply (HD o Ho)|leaf].
     - (* ECase *)
       destruct Hc as (Cs & Ct & Cd).
-      destruct (IHe D Cs o Ho) as (E1 & V1 & K1).
+      destruct (IHe D Cs o Ho) as (E1 & V1 & K1 & X1).
       assert (HD : SimOpt dflt D) by (destruct dflt; [apply H0; assumption|exact I]).
-      split; [|split].
+      split; [|split; [|split]].
       + unf eval_ECase. apply Sim_wrap. apply Sim_bind; [exact E1|]. intros x.
         clear IHe E1 V1 K1 Cs. induction H as [|[c r] cases [Hcc Hr] Hrest IH].
         * destruct dflt as [d|]; [apply (HD o Ho)|leaf].
@@ -845,8 +872,18 @@ Section CacheSim.
           cbv beta iota. apply Sim_bind; [apply (Hcc D Cc o Ho)|]. intros p.
           apply Sim_bind; [apply Sim_pure, Pure_call_value|]. intros b.
           destruct (truthy b); [apply (Hr D Cr o Ho)|apply IH; assumption].
+      + unf explain_ECase. apply Sim_catch; [|intros c ee; leaf].
+        apply Sim_bind; [exact X1|]. intros a.
+        apply Sim_bind; [exact E1|]. intros x.
+        apply Sim_bind; [|intros; leaf].
+        clear IHe E1 V1 K1 X1 Cs. induction H as [|[c r] cases [Hcc Hr] Hrest IH].
+        * destruct dflt as [d|]; [apply (HD o Ho)|leaf].
+        * cbn [fst snd] in *. destruct Ct as [[Cc Cr] Ct].
+          cbv beta iota. apply Sim_bind; [apply (Hcc D Cc o Ho)|]. intros p.
+          apply Sim_bind; [apply Sim_pure, Pure_call_value|]. intros b.
+          destruct (truthy b); [apply (Hr D Cr o Ho)|apply IH; assumption].
     - (* ECoalesce *)
-      split; [|split].
+      split; [|split; [|split]].
       + unf eval_ECoalesce. apply Sim_wrap.
         assert (G : forall l1,
           Sim ((fix go (ms : list expr) (last : option (cause * bool)) {struct ms} : MC value :=
@@ -864,7 +901,7 @@ Section CacheSim.
         { induction H as [|m ms Hm Hrest IH]; intros l1.
           - leaf.
           - destruct Hc as [Cm Cms].
-            destruct (Hm D Cm o Ho) as (E1 & V1 & K1).
+            destruct (Hm D Cm o Ho) as (E1 & V1 & K1 & X1).
             apply Sim_catch.
             + apply Sim_bind; [exact V1|intros; exact E1].
             + intros c ee. destruct ee; [apply IH; assumption|leaf]. }
@@ -886,7 +923,7 @@ Section CacheSim.
         { induction H as [|m ms Hm Hrest IH]; intros l1.
           - leaf.
           - destruct Hc as [Cm Cms].
-            destruct (Hm D Cm o Ho) as (E1 & V1 & K1).
+            destruct (Hm D Cm o Ho) as (E1 & V1 & K1 & X1).
             apply Sim_catch.
             + apply Sim_bind; [exact V1|intros; exact V1].
             + intros c ee. destruct ee; [apply IH; assumption|leaf]. }
@@ -908,15 +945,42 @@ Section CacheSim.
         { induction H as [|m ms Hm Hrest IH]; intros l1.
           - leaf.
           - destruct Hc as [Cm Cms].
-            destruct (Hm D Cm o Ho) as (E1 & V1 & K1).
+            destruct (Hm D Cm o Ho) as (E1 & V1 & K1 & X1).
             apply Sim_catch.
             + apply Sim_bind; [exact V1|intros; exact K1].
             + intros c ee. destruct ee; [apply IH; assumption|leaf]. }
         apply G.
+      + unf explain_ECoalesce. apply Sim_catch.
+        * assert (G : forall l1,
+            Sim ((fix go (ms : list expr) (last : option (cause * bool)) {struct ms} : MC (list key) :=
+                    match ms with
+                    | [] => match last with Some (c, ee) => fail store c ee | None => fail store CUnmodelled false end
+                    | m :: ms' => catch store (bind store (validateC m o) (fun _ => explainC m o))
+                                    (fun c ee => if ee then go ms' (Some (c, ee)) else fail store c ee)
+                    end) ms l1)
+                ((fix go (ms : list expr) (last : option (cause * bool)) {struct ms} : MN (list key) :=
+                    match ms with
+                    | [] => match last with Some (c, ee) => fail unit c ee | None => fail unit CUnmodelled false end
+                    | m :: ms' => catch unit (bind unit (validateN m o) (fun _ => explainN m o))
+                                    (fun c ee => if ee then go ms' (Some (c, ee)) else fail unit c ee)
+                    end) ms l1)).
+          { induction H as [|m ms Hm Hrest IH]; intros l1.
+            - leaf.
+            - destruct Hc as [Cm Cms].
+              destruct (Hm D Cm o Ho) as (E1 & V1 & K1 & X1).
+              apply Sim_catch.
+              + apply Sim_bind; [exact V1|intros; exact X1].
+              + intros c ee. destruct ee; [apply IH; assumption|leaf]. }
+          apply G.
+        * intros c ee. destruct ee; [|leaf].
+          induction H as [|m ms Hm Hrest IH]; [leaf|].
+          destruct Hc as [Cm Cms]. destruct ms as [|m2 ms2].
+          -- apply (Hm D Cm o Ho).
+          -- apply IH. exact Cms.
     - (* EIter *)
       assert (HA : forall x, In x es -> SimAll x D).
       { intros x Hx. rewrite Forall_forall in H. apply (H x Hx D). apply (coh_all_In es D Hc x Hx). }
-      split; [|split].
+      split; [|split; [|split]].
       + unf eval_EIter. apply Sim_wrap. apply Sim_bind; [|intros; leaf].
         clear H Hc. induction es as [|x es IH]; [leaf|].
         cbv beta iota. apply Sim_catch; [|intros; leaf].
@@ -925,17 +989,20 @@ Section CacheSim.
         apply Sim_bind; [|intros; leaf]. apply IH. intros y Hy. apply HA. now right.
       + unf validate_EIter. apply Sim_iterM. intros x Hx. apply (HA x Hx o Ho).
       + unf keys_EIter. apply Sim_unionM. intros x Hx. apply (HA x Hx o Ho).
+      + unf explain_EIter. apply Sim_unionM. intros x Hx. apply (HA x Hx o Ho).
     - (* EWith: the wrapped expression sees the overlaid dictionary, which [D] contains *)
-      destruct (IHe _ Hc (with_opts force p o) (ex_intro _ o (conj Ho eq_refl))) as (E1 & V1 & K1).
-      split; [|split].
+      destruct (IHe _ Hc (with_opts force p o) (ex_intro _ o (conj Ho eq_refl))) as (E1 & V1 & K1 & X1).
+      split; [|split; [|split]].
       + unf eval_EWith. apply Sim_wrap. exact E1.
       + unf validate_EWith. exact V1.
       + unf keys_EWith. cbv zeta.
         apply Sim_bind; [exact K1|]. intros ks. apply Sim_pure, Pure_filter_preset.
+      + unf explain_EWith. cbv zeta.
+        apply Sim_bind; [exact X1|]. intros ks. apply Sim_pure, Pure_filter_preset.
     - (* ECached *)
       destruct Hc as (Hf & Hokd & Ce & Hsite). pose proof (Hokd o Ho) as Hok.
-      destruct (IHe D Ce o Ho) as (E1 & V1 & K1).
-      split; [|split].
+      destruct (IHe D Ce o Ho) as (E1 & V1 & K1 & X1).
+      split; [|split; [|split]].
       + unf eval_ECached. destruct c as [cid|]; [|apply Sim_wrap; exact E1].
         cbn [cfg_nc cache_ctx_off orb].
         destruct (cache_ctx_off cfg || cache_opt_off o); [apply Sim_wrap; exact E1|].
@@ -949,14 +1016,15 @@ Section CacheSim.
         destruct (cache_ctx_off cfg || cache_opt_off o); [exact V1|].
         apply (validate_sim cid e o Hf Hok Hsite (keysC e o) (validateC e o) K1 V1).
       + unf keys_ECached. exact K1.
+      + unf explain_ECached. exact X1.
     - (* ECall *)
       destruct Hc as (Cf & Ca & Ck).
-      destruct (IHe D Cf o Ho) as (E1 & V1 & K1).
+      destruct (IHe D Cf o Ho) as (E1 & V1 & K1 & X1).
       assert (HA : forall x, In x args -> SimAll x D).
       { intros x Hx. rewrite Forall_forall in H. apply (H x Hx D). apply (coh_all_In args D Ca x Hx). }
       assert (HK : forall x, In x kwargs -> SimAll x D).
       { intros x Hx. rewrite Forall_forall in H0. apply (H0 x Hx D). apply (coh_all_In kwargs D Ck x Hx). }
-      split; [|split].
+      split; [|split; [|split]].
       + unf eval_ECall. apply Sim_wrap. apply Sim_bind; [exact E1|]. intros fv.
         apply Sim_bind; [apply Sim_mapM; intros x Hx; apply (HA x Hx o Ho)|]. intros av.
         apply Sim_bind; [apply Sim_mapM; intros x Hx; apply (HK x Hx o Ho)|]. intros kv.
@@ -968,47 +1036,58 @@ Section CacheSim.
         apply Sim_bind; [apply Sim_unionM; intros x Hx; apply (HA x Hx o Ho)|]. intros b.
         apply Sim_bind; [apply Sim_unionM; intros x Hx; apply (HK x Hx o Ho)|]. intros c.
         leaf.
+      + unf explain_ECall. apply Sim_bind; [exact X1|]. intros a.
+        apply Sim_bind; [apply Sim_unionM; intros x Hx; apply (HA x Hx o Ho)|]. intros b.
+        apply Sim_bind; [apply Sim_unionM; intros x Hx; apply (HK x Hx o Ho)|]. intros c.
+        leaf.
     - (* EComp *)
       destruct Hc as [-> Ce].
-      destruct (IHe D Ce o Ho) as (E1 & V1 & K1).
-      split; [|split].
+      destruct (IHe D Ce o Ho) as (E1 & V1 & K1 & X1).
+      split; [|split; [|split]].
       + unf eval_EComp. apply Sim_wrap. apply Sim_bind; [exact E1|]. intros v.
         apply Sim_bind; [|intros; leaf]. destruct (effects_opt_off o); [leaf|]. apply Sim_pure, Pure_iterM. intros ? [].
       + unf validate_EComp. apply Sim_bind; [exact V1|]. intros _.
         destruct (effects_opt_off o); [leaf|]. apply Sim_pure, Pure_iterM. intros ? [].
       + unf keys_EComp. exact K1.
+      + unf explain_EComp. apply Sim_bind; [exact X1|]. intros a.
+        destruct (effects_opt_off o); [leaf|].
+        apply Sim_bind; [|intros; leaf]. apply Sim_pure, Pure_unionM. intros ? [].
     - (* ELogged *)
-      destruct (IHe D Hc o Ho) as (E1 & V1 & K1).
-      split; [|split].
+      destruct (IHe D Hc o Ho) as (E1 & V1 & K1 & X1).
+      split; [|split; [|split]].
       + unf eval_ELogged. apply Sim_wrap. apply Sim_bind; [leaf|]. intros _.
         apply Sim_bind; [|intros; exact E1].
         apply Sim_pure. destruct (log_ctx_off cfg || logging_opt_off o); destruct (log_ctx_off cfg_nc || logging_opt_off o);
           first [apply Pure_ret | apply Pure_emit | (intros s; split; reflexivity)].
       + unf validate_ELogged. exact V1.
       + unf keys_ELogged. exact K1.
+      + unf explain_ELogged. exact X1.
     - (* EPipe *)
       assert (HA : forall x, In x steps -> SimAll x D).
       { intros x Hx. rewrite Forall_forall in H. apply (H x Hx D). apply (coh_all_In steps D Hc x Hx). }
-      split; [|split].
+      split; [|split; [|split]].
       + unf eval_EPipe. apply Sim_wrap. apply Sim_bind; [|intros; leaf].
         apply Sim_mapM; intros x Hx; apply (HA x Hx o Ho).
       + unf validate_EPipe. apply Sim_iterM; intros x Hx; apply (HA x Hx o Ho).
       + unf keys_EPipe. apply Sim_unionM; intros x Hx; apply (HA x Hx o Ho).
+      + unf explain_EPipe. apply Sim_unionM; intros x Hx; apply (HA x Hx o Ho).
   Qed.
 
   (** ** Histories: operations on one long-lived graph, every cache shared along the sequence *)
   Inductive hop :=
   | HEval (e : expr) (o : dict)
   | HValidate (e : expr) (o : dict)
-  | HKeys (e : expr) (o : dict).
+  | HKeys (e : expr) (o : dict)
+  | HExplain (e : expr) (o : dict).
 
   Inductive hobs :=
   | OEval (r : res value)
   | OValidate (r : res unit)
-  | OKeys (r : res (list key)).
+  | OKeys (r : res (list key))
+  | OExplain (r : res (list key)).
 
-  Definition hop_expr (p : hop) : expr := match p with HEval e _ | HValidate e _ | HKeys e _ => e end.
-  Definition hop_opts (p : hop) : dict := match p with HEval _ o | HValidate _ o | HKeys _ o => o end.
+  Definition hop_expr (p : hop) : expr := match p with HEval e _ | HValidate e _ | HKeys e _ | HExplain e _ => e end.
+  Definition hop_opts (p : hop) : dict := match p with HEval _ o | HValidate _ o | HKeys _ o | HExplain _ o => o end.
 
   (** what the long-lived (cached) graph answers, operation by operation *)
   Fixpoint run_hist (h : list hop) (s : store) : list hobs :=
@@ -1017,6 +1096,7 @@ Section CacheSim.
     | HEval e o :: h' => OEval (resC (evalC e o) s) :: run_hist h' (stC (evalC e o) s)
     | HValidate e o :: h' => OValidate (resC (validateC e o) s) :: run_hist h' (stC (validateC e o) s)
     | HKeys e o :: h' => OKeys (resC (keysC e o) s) :: run_hist h' (stC (keysC e o) s)
+    | HExplain e o :: h' => OExplain (resC (explainC e o) s) :: run_hist h' (stC (explainC e o) s)
     end.
 
   (** what the same graph answers with caching switched off, each operation on its own *)
@@ -1025,6 +1105,7 @@ Section CacheSim.
     | HEval e o => OEval (resN (evalN e o))
     | HValidate e o => OValidate (resN (validateN e o))
     | HKeys e o => OKeys (resN (keysN e o))
+    | HExplain e o => OExplain (resN (explainN e o))
     end.
 
   (** every operation's expression is covered, starting from the operation's own dictionary *)
@@ -1037,13 +1118,24 @@ Section CacheSim.
     induction h as [|p h IH]; intros s Hs Hh; [reflexivity|].
     assert (Hc : scoh (hop_expr p) (eq (hop_opts p))) by (apply Hh; now left).
     assert (Hh' : hist_ok h) by (intros q Hq; apply Hh; now right).
-    destruct p as [e o|e o|e o]; cbn [hop_expr hop_opts] in *;
-      destruct (sim_all e _ Hc o eq_refl) as (E & V & K); cbn [run_hist map ref_op].
+    destruct p as [e o|e o|e o|e o]; cbn [hop_expr hop_opts] in *;
+      destruct (sim_all e _ Hc o eq_refl) as (E & V & K & X); cbn [run_hist map ref_op].
     - destruct (E s Hs) as [H1 H2]. rewrite H1. f_equal. now apply IH.
     - destruct (V s Hs) as [H1 H2]. rewrite H1. f_equal. now apply IH.
     - destruct (K s Hs) as [H1 H2]. rewrite H1. f_equal. now apply IH.
+    - destruct (X s Hs) as [H1 H2]. rewrite H1. f_equal. now apply IH.
   Qed.
 
   Corollary history_transparent_from_empty h : hist_ok h -> run_hist h [] = map ref_op h.
   Proof. apply history_transparent, Sound_empty. Qed.
 End CacheSim.
+
+(** the switch configuration and the ghost oracle do not enter any result of a covered history *)
+Corollary history_independent_of_switches u fuel cfg1 cfg2 so1 so2 sites h :
+  hist_ok u fuel sites h ->
+  run_hist u fuel cfg1 so1 h [] = run_hist u fuel cfg2 so2 h [].
+Proof.
+  intros H.
+  rewrite (history_transparent_from_empty u fuel cfg1 so1 sites h H).
+  now rewrite (history_transparent_from_empty u fuel cfg2 so2 sites h H).
+Qed.
